@@ -7,6 +7,7 @@
 #include <cstdio>
 #include <cstdlib>
 #include <cstring>
+#include <ctime>
 #include <cxxabi.h>
 #include <fcntl.h>
 #include <fstream>
@@ -199,12 +200,15 @@ bool reproduces(const Case &c, const std::string &key) {
 }
 
 // ddmin-like reduction of the steps of one plan under "same violation key"
+static time_t g_shrink_deadline = 0;
+static bool shrink_time_left() { return time(nullptr) < g_shrink_deadline; }
+
 void shrink_plan(Case &c, size_t t, const std::string &key, int &runs) {
     std::vector<Step> &steps = c.plans[t].steps;
     size_t chunk = steps.size() / 2;
-    while (chunk >= 1 && runs < 400) {
+    while (chunk >= 1 && runs < 400 && shrink_time_left()) {
         bool removed = false;
-        for (size_t start = 0; start < steps.size() && runs < 400;) {
+        for (size_t start = 0; start < steps.size() && runs < 400 && shrink_time_left();) {
             size_t len = std::min(chunk, steps.size() - start);
             Case trial = c;
             std::vector<Step> &ts = trial.plans[t].steps;
@@ -220,6 +224,7 @@ void shrink_plan(Case &c, size_t t, const std::string &key, int &runs) {
 
 void shrink_case(Case &c, const std::string &key, int failing_alt) {
     int runs = 0;
+    g_shrink_deadline = time(nullptr) + 90; // minimisation is best effort within a wall-clock budget
     if (!c.alts.empty() && failing_alt >= 0 && failing_alt < static_cast<int>(c.alts.size())) {
         Case trial = c;
         trial.alts = {c.alts[static_cast<size_t>(failing_alt)]};
